@@ -12,6 +12,8 @@ mod driver;
 mod explain;
 mod gen;
 mod interp;
+mod lockh;
+mod shrink;
 mod model;
 mod seq;
 mod oracle;
